@@ -553,6 +553,76 @@ Qed.
 
 End IdentityProofs.
 
+(* ------------------------------------------------------------------ getReference: every request gets ITS answer *)
+Definition gr_inv (st : gr_state) : Prop :=
+  (forall r f, In (r, f) (g_pending st) -> In (r, f) (g_log st)) /\
+  (forall r a, In (r, a) (g_delivered st) -> exists f, In (r, f) (g_log st) /\ a = get_reference_now f) /\
+  (forall r f, In (r, f) (g_log st) -> (r < g_next st)%nat) /\
+  NoDup (map fst (g_log st)).
+
+Lemma resumed_own q : resumed q = q.
+Proof. unfold resumed, resume_sturdy_binding. reflexivity. Qed.
+
+Lemma gr_step_inv st e : gr_inv st -> gr_inv (gr_step st e).
+Proof.
+  intros (Hp & Hd & Hn & Hu). destruct e as [f|]; cbn [gr_step].
+  - assert (Hfresh : ~ In (g_next st) (map fst (g_log st))).
+    { intros Hin. apply in_map_iff in Hin. destruct Hin as ([r f'] & Hr & Hin). cbn [fst] in Hr. subst r.
+      apply Hn in Hin. exact (Nat.lt_irrefl _ Hin). }
+    destruct (g_started st); cbn [g_pending g_log g_delivered g_next];
+      (split; [|split; [|split; [|cbn [map fst]; constructor; assumption]]]).
+    + intros r f0 Hin. right. apply Hp. exact Hin.
+    + intros r a [Hin|Hin].
+      * inversion Hin; subst r a. exists f. split; [left; reflexivity|reflexivity].
+      * destruct (Hd _ _ Hin) as (f0 & Hl & Ha). exists f0. split; [right; exact Hl|exact Ha].
+    + intros r f0 [Hin|Hin]; [inversion Hin as [[Hr Hf]]; apply Nat.lt_succ_diag_r|]. apply Hn in Hin. apply Nat.lt_lt_succ_r. exact Hin.
+    + intros r f0 Hin. apply in_app_or in Hin. destruct Hin as [Hin|[Hin|[]]].
+      * right. apply Hp. exact Hin.
+      * left. exact Hin.
+    + intros r a Hin. destruct (Hd _ _ Hin) as (f0 & Hl & Ha). exists f0. split; [right; exact Hl|exact Ha].
+    + intros r f0 [Hin|Hin]; [inversion Hin as [[Hr Hf]]; apply Nat.lt_succ_diag_r|]. apply Hn in Hin. apply Nat.lt_lt_succ_r. exact Hin.
+  - cbn [g_pending g_log g_delivered g_next]. rewrite resumed_own.
+    split; [intros r f []|split; [|split; [exact Hn|exact Hu]]].
+    intros r a Hin. apply in_app_or in Hin. destruct Hin as [Hin|Hin]; [|exact (Hd _ _ Hin)].
+    apply in_rev in Hin. apply in_map_iff in Hin. destruct Hin as ([r0 f0] & Heq & Hin).
+    cbn [fst snd] in Heq. inversion Heq; subst r a. exists f0. split; [apply Hp; exact Hin|reflexivity].
+Qed.
+
+Lemma gr_run_inv evs : gr_inv (gr_run evs).
+Proof.
+  unfold gr_run.
+  assert (G : forall st, gr_inv st -> gr_inv (fold_left gr_step evs st)).
+  { induction evs as [|e evs IH]; intros st Hst; cbn [fold_left]; [exact Hst|]. apply IH. apply gr_step_inv. exact Hst. }
+  apply G. split; [intros r f []|split; [intros r a []|split; [intros r f []|constructor]]].
+Qed.
+
+(* for every history of getReference requests made before and after startService: whatever a request's Deferred is fired
+   with was obtained for THAT request's FURL -- over the Tub.brokers entry for the tub id it names, asking for the name it
+   names; and a request number stands for one FURL only *)
+Theorem gr_answers_match evs r a :
+  In (r, a) (g_delivered (gr_run evs)) ->
+  exists f, In (r, f) (g_log (gr_run evs)) /\ a_key a = f_tub f /\ a_name a = f_name f /\
+            (forall f', In (r, f') (g_log (gr_run evs)) -> f' = f).
+Proof.
+  intros Hin. destruct (gr_run_inv evs) as (_ & Hd & _ & Hu).
+  destruct (Hd _ _ Hin) as (f & Hl & Ha). exists f. subst a. split; [exact Hl|split; [reflexivity|split; [reflexivity|]]].
+  intros f' Hl'. clear Hin Hd.
+  induction (g_log (gr_run evs)) as [|[r0 f0] l IH]; [destruct Hl|].
+  cbn [map fst] in Hu. inversion Hu as [|x xs Hnot Hu']; subst.
+  destruct Hl as [Hl|Hl], Hl' as [Hl'|Hl'].
+  - inversion Hl; inversion Hl'; subst. reflexivity.
+  - inversion Hl; subst. exfalso. apply Hnot. apply in_map_iff. exists (r, f'). auto.
+  - inversion Hl'; subst. exfalso. apply Hnot. apply in_map_iff. exists (r, f). auto.
+  - apply IH; assumption.
+Qed.
+
+Example ex_getref_queue :
+  g_delivered (gr_run [GrRequest {| f_tub := [97]; f_name := [1] |}; GrRequest {| f_tub := [98]; f_name := [2] |}; GrStart;
+                       GrRequest {| f_tub := [97]; f_name := [3] |}])
+  = [(2%nat, {| a_key := [97]; a_name := [3] |}); (1%nat, {| a_key := [98]; a_name := [2] |});
+     (0%nat, {| a_key := [97]; a_name := [1] |})].
+Proof. vm_compute. reflexivity. Qed.
+
 (* ------------------------------------------------------------------ non-vacuity (concrete certificates = numbers) *)
 Definition ex_tubid (c : Z) : id := [c; c + 1].
 Definition pz (l : option Z) (e : list Z) : presented Z := {| leaf := l; extras := e |}.
